@@ -36,11 +36,24 @@ def build(desc, prot='soap11', validator='lxml'):
     class O(ComplexModel):
         __namespace__ = 'urn:other'
         x = Integer
+    class Shape(ComplexModel):
+        __namespace__ = 'tns'
+        s = Integer
+
+    class Rect(Shape):
+        __namespace__ = 'tns'
+        w = Integer
+
+    class Square(Rect):
+        __namespace__ = 'tns'
+        q = Integer
     H = {'Session': Session, 'Quota': Quota}
     FT = {'LimitFault': LimitFault, 'AuthFault': AuthFault}
     KIND = {'int_int': ((Integer,), Integer, lambda a: a + 1), 'c8_c8': ((C8,), C8, lambda c: c),
             'int_double': ((Integer,), Double, lambda a: 1.5), 'str_bool': ((Unicode,), Boolean, lambda s: True),
-            'other_other': ((O,), O, lambda o: o)}
+            'other_other': ((O,), O, lambda o: o),
+            'shape_square': ((Shape,), Shape, lambda sh: Square(s=sh.s, w=2, q=3))}
+    poly = any(m['kind'] == 'shape_square' for sd in desc['services'] for m in sd['methods'])
     services = []
     for sd in desc['services']:
         d = {}
@@ -75,7 +88,8 @@ def build(desc, prot='soap11', validator='lxml'):
             d[m['name']] = rpc(*args, **kw)(ns[m['name']])
         services.append(type(str(sd['cls']), (Service,), d))
     P = Soap11 if prot == 'soap11' else Soap12
-    app = Application(services, desc['tns'], name=desc['name'], in_protocol=P(validator=validator), out_protocol=P())
+    app = Application(services, desc['tns'], name=desc['name'], in_protocol=P(validator=validator, **({'polymorphic': True} if poly else {})),
+                      out_protocol=P(**({'polymorphic': True} if poly else {})))
     return WsgiApplication(app), seen, {'C8': C8, 'O': O}
 
 
@@ -221,7 +235,8 @@ def zeep_call(wsgi, seen, desc, classes):
     except Exception as e:
         return {m['name']: 'client: %s: %s' % (type(e).__name__, str(e)[:150]) for sd in desc['services'] for m in sd['methods']}
     want = {'int_int': (lambda: {'x': 5}, 6), 'c8_c8': (lambda: {'i': 7}, {'i': 7}), 'int_double': (lambda: {'x': 5}, 1.5),
-            'str_bool': (lambda: {'x': 'hello'}, True), 'other_other': (lambda: {'x': {'x': 9}}, {'x': 9})}
+            'str_bool': (lambda: {'x': 'hello'}, True), 'other_other': (lambda: {'x': {'x': 9}}, {'x': 9}),
+            'shape_square': (lambda: {'x': {'s': 1}}, {'s': 1, 'w': 2, 'q': 3})}
     for sname, svc in cl.wsdl.services.items():
         for pname, port in svc.ports.items():
             proxy = cl.bind(sname, pname)
